@@ -125,19 +125,20 @@ JoinAcceptOf(mm, b) ==
         nwk |-> DeriveNwkSKey(mm.appKey, f.joinNonce, f.netId, LE16(mm.devNonce)),
         app |-> DeriveAppSKey(mm.appKey, f.joinNonce, f.netId, LE16(mm.devNonce))]
 
+NotCert == [cid |-> -2, arg |-> <<>>]
 HandleFrame(mm, b, maxlen, classA, pendingObs) ==
-    IF mm.act = "unjoined" THEN [m |-> mm, resp |-> "NoUpdate", cnt |-> <<>>, deliver |-> <<>>, ok |-> TRUE]
+    IF mm.act = "unjoined" THEN [m |-> mm, resp |-> "NoUpdate", cnt |-> <<>>, deliver |-> <<>>, ok |-> TRUE, cert |-> NotCert]
     ELSE IF mm.act = "joining" THEN
          IF classA /\ JoinAcceptOk(b, mm.appKey)
          THEN LET j == JoinAcceptOf(mm, b)
               IN [m |-> AfterJoinAccept(mm, j.ja, j.nwk, j.app), resp |-> "JoinSuccess", cnt |-> <<>>,
-                  deliver |-> <<>>, ok |-> TRUE]
-         ELSE [m |-> mm, resp |-> IF classA THEN "NoUpdate" ELSE "ErrMac", cnt |-> <<>>, deliver |-> <<>>, ok |-> TRUE]
+                  deliver |-> <<>>, ok |-> TRUE, cert |-> NotCert]
+         ELSE [m |-> mm, resp |-> IF classA THEN "NoUpdate" ELSE "ErrMac", cnt |-> <<>>, deliver |-> <<>>, ok |-> TRUE, cert |-> NotCert]
     ELSE
       LET j == Judge(mm, b, maxlen, classA) IN
-      IF j.kind = "rejected" THEN [m |-> mm, resp |-> "NoUpdate", cnt |-> <<>>, deliver |-> <<>>, ok |-> TRUE]
+      IF j.kind = "rejected" THEN [m |-> mm, resp |-> "NoUpdate", cnt |-> <<>>, deliver |-> <<>>, ok |-> TRUE, cert |-> NotCert]
       ELSE IF j.kind = "oversize"
-           THEN [m |-> AfterRx2Complete(mm), resp |-> "Oversize", cnt |-> <<>>, deliver |-> <<>>, ok |-> TRUE]
+           THEN [m |-> AfterRx2Complete(mm), resp |-> "Oversize", cnt |-> <<>>, deliver |-> <<>>, ok |-> TRUE, cert |-> NotCert]
       ELSE
         LET v == j.v
             reqs == DownRequests(v)
@@ -147,7 +148,9 @@ HandleFrame(mm, b, maxlen, classA, pendingObs) ==
             m3 == AfterRxAccepted(mm, v, fo.sts, 0)
         IN [m |-> m3, resp |-> RxAcceptedResp(mm), cnt |-> v.n,
             deliver |-> IF Delivered(mm, v) THEN <<[port |-> v.port, data |-> v.payload]>> ELSE <<>>,
-            ok |-> fo.ok]
+            ok |-> fo.ok,
+            \* the certification command it carried for a build with the handler (cid -2: not a certification frame)
+            cert |-> IF SessionExpired(mm) THEN NotCert ELSE CertOf(mm, v)]
 
 \* pending answers compared modulo the DevStatusAns payload
 PendingOk(name, mm, e) == Chk(name, Normalize(mm.sess.pending), Normalize(e.sess.pending))
@@ -198,10 +201,12 @@ JoinBytesOk(args, devNonce, b) ==
 \* a history may start from an installed session (its fields are taken as the initial condition)
 SessOf(ss) == [nwk |-> ss.nwk, app |-> ss.app, addr |-> ss.addr, up |-> ss.up, down |-> ss.down,
                adrCnt |-> ss.adrcnt, pending |-> ss.pending, ackOwed |-> ss.ackowed = 1, confirmed |-> ss.confirmed = 1]
+\* (the recorder built with the device's certification handler says so in the reset event)
+CertBuild(e) == "cert" \in DOMAIN e /\ e.cert = 1
 EvReset(e) ==
     /\ m' = IF e.seeded = 1 /\ e.sess.has = 1
-            THEN [InitMac(e.region, e.maxpw, e.gain) EXCEPT !.act = "joined", !.sess = SessOf(e.sess)]
-            ELSE InitMac(e.region, e.maxpw, e.gain)
+            THEN [InitMac(e.region, e.maxpw, e.gain) EXCEPT !.act = "joined", !.sess = SessOf(e.sess), !.cert = CertBuild(e)]
+            ELSE [InitMac(e.region, e.maxpw, e.gain) EXCEPT !.cert = CertBuild(e)]
     /\ fe' = IdleFe(e)
     /\ SnapOk(m', e)
 
@@ -371,6 +376,11 @@ NbRx(e) ==
               IF e.resp.k = "NoUpdate" THEN UNCHANGED <<m, fe>> /\ SnapOk(m, e)
               ELSE /\ Chk("C07 oversize frame ends the procedure as a timeout", Rx2CompleteResp(m), e.resp.k)
                    /\ m' = AfterRx2Complete(m) /\ fe' = [fe EXCEPT !.nb = "idle"] /\ SnapOk(m', e)
+         \* certification build: a certification frame whose command the handler does not act upon is accepted
+         \* (counters advance) but reported as nothing received; the window stays open
+         ELSE IF h.cert.cid = -1
+         THEN /\ Chk("certification frame without an effective command: reported as no update", "NoUpdate", e.resp.k)
+              /\ m' = WithObsPending(h.m, e) /\ UNCHANGED fe /\ SnapOk(m', e)
          ELSE /\ Chk("C05/C07 response to received frame", h.resp, e.resp.k)
               /\ IF h.resp = "DownlinkReceived" THEN Chk("C05 accepted counter", h.cnt, e.resp.cnt) ELSE TRUE
               /\ PendingOk("C08 answers queued", h.m, e)
@@ -433,6 +443,16 @@ ARun(s, calls, pendingObs) ==
               IF h.resp = "Oversize"
               THEN IF ends THEN [n EXCEPT !.m = h.m, !.pending = Rx2CompleteResp(s.m), !.pc = nextpc, !.ok = h.ok]
                    ELSE [n EXCEPT !.pc = nextpc]
+              \* certification build, FPort 224 (what the handler does with each command):
+              \* nothing to report: the frame is accepted (counters) but the procedure goes on as after a time-out
+              ELSE IF h.cert.cid = -1 THEN [n EXCEPT !.m = h.m, !.pc = nextpc, !.ok = h.ok]
+              \* LinkCheckReq: a LinkCheckReq MAC command is queued for the next uplink; the procedure ends as a time-out
+              ELSE IF h.cert.cid = 32
+                   THEN LET mq == [h.m EXCEPT !.sess.pending = IF Len(@) < 15 THEN Append(@, 2) ELSE @] IN
+                        [n EXCEPT !.m = AfterRx2Complete(mq), !.pending = Rx2CompleteResp(mq), !.pc = nextpc, !.ok = h.ok]
+              \* EchoPayloadReq / RxAppCntReq / DutVersionsReq: the answer is transmitted at once, on FPort 224
+              ELSE IF h.cert.cid \in {8, 9, 127}
+                   THEN [n EXCEPT !.m = h.m, !.pc = "certtx", !.certPl = CertAnswer(h.cert, h.cnt), !.certNext = nextpc, !.ok = h.ok]
               ELSE [n EXCEPT !.m = h.m, !.pending = IF h.resp = "NoUpdate" THEN "" ELSE h.resp, !.cnt = h.cnt,
                              !.dls = PushDl(s.dls, h.deliver), !.pc = nextpc, !.ok = h.ok]
           \* window_complete: class C re-arms RXC (with the parameters now in force), else low power
@@ -457,6 +477,14 @@ ARun(s, calls, pendingObs) ==
                     ELSE [n EXCEPT !.pc = "treset", !.ms = c.ts, !.ok = okr, !.txBytes = c.bytes,
                                    !.rx1set = Rx1Set(s.m, s.isJoin, c), !.rx2 = Rx2Rf(s.m), !.sent = TRUE]
           [] s.pc = "treset" -> IF c.c # "timer_reset" THEN bad("timer_reset") ELSE [n EXCEPT !.pc = "bw1"]
+          [] s.pc = "certtx" ->
+               \* the certification answer: an ordinary unconfirmed uplink on FPort 224 with the next counter, on a
+               \* legal channel / data rate / power, carrying the pending MAC answers; then the procedure ends as a time-out
+               IF c.c # "tx" THEN bad("tx (certification answer)")
+               ELSE LET okr == TxRadioOk(s.m, FALSE, c) /\ UplinkBytesOk(s.m, CertPort, s.certPl, FALSE, c.bytes)
+                        mp == AfterSendPrepare(s.m, FALSE) IN
+                    IF c.out # "done" THEN [AResp([n EXCEPT !.m = mp], "ErrRadio") EXCEPT !.ok = okr]
+                    ELSE [n EXCEPT !.m = AfterRx2Complete(mp), !.pending = Rx2CompleteResp(mp), !.pc = s.certNext, !.ok = okr]
           [] s.pc \in {"bw1", "bw2"} ->
                LET w == IF s.pc = "bw1" THEN 1 ELSE 2 IN
                IF s.classc
@@ -523,7 +551,7 @@ EvAProc(e) ==
           s0 == [m |-> m1, m0 |-> m1, pc |-> "tx", i |-> 1, ms |-> 0, resp |-> "", pending |-> "", cnt |-> <<>>,
                  dls |-> fe.dls, ok |-> TRUE, isJoin |-> isJoin, rx1set |-> {}, rx2 |-> fe.rx2, winlen |-> 0,
                  classc |-> fe.classc, lead |-> fe.lead, buffer |-> fe.buffer, sent |-> FALSE,
-                 txBytes |-> <<>>]
+                 txBytes |-> <<>>, certPl |-> <<>>, certNext |-> ""]
           s1 == ARun(s0, e.calls, e.sess.pending)
           sF == AFinal(s1)
       IN
@@ -554,6 +582,8 @@ RxcRun(s, calls, i) ==
          ELSE IF c.out = "pending" THEN [s EXCEPT !.resp = "Pending"]
          ELSE LET h == HandleFrame(s.m, c.bytes, RxcRf(s.m).maxlen, FALSE, <<>>) IN
               IF h.resp = "Oversize" THEN RxcRun(s, calls, i + 1)      \* not accepted: no effect, keep listening
+              \* (certification frame without an effective command: accepted, nothing reported, keeps listening)
+              ELSE IF h.cert.cid = -1 THEN RxcRun([s EXCEPT !.m = h.m, !.ok = s.ok /\ h.ok], calls, i + 1)
               ELSE RxcRun([s EXCEPT !.m = h.m, !.dls = PushDl(s.dls, h.deliver), !.ok = s.ok /\ h.ok, !.cnt = h.cnt,
                                     !.resp = IF h.resp = "NoUpdate" THEN "" ELSE h.resp], calls, i + 1)
 
@@ -582,6 +612,9 @@ Match(e) ==
       \* a forked continuation: the harness re-created the device, re-executed the history prefix silently
       \* and now continues from that point with a different RNG draw
       [] e.ev = "restore" -> m' = ck[e.id][1] /\ fe' = ck[e.id][2] /\ SnapOk(m', e)
+      \* the recorder's watchdog: a call into the device did not return and made no random draws (the draw budget
+      \* turns a spinning channel selection into a Hang response; this is the same without draws)
+      [] e.ev = "watchdog" -> ChkT(<<"C04 every call returns (watchdog)", e.resp.s>>, FALSE) /\ UNCHANGED <<m, fe>>
       [] OTHER -> Chk("unknown event", "", e.ev) /\ UNCHANGED <<m, fe>>
 
 Init == l = 1 /\ ck = <<>> /\ m = InitMac("EU868", 14, 0)
